@@ -77,6 +77,10 @@ def level(base, small, tier_deps=True):
         out.append(["union", b, c])
         out.append(["inter", b, c])
     out += [["hasmethod", "pm"], ["hasmethod", "nope"], ["lit", 0], ["lit", 0, 1], ["lit", "a"], ["lit", 1, 0], ["tuple"]]
+    # a repeated member (what normalisation yields for Union[type, type[object], int]), against a combination of the
+    # same length that strictly contains its members
+    out += [["ounion", "K0", "K0", "K4"], ["ounion", "K0", "K4", "int"], ["ounion", "K4", "K0", "K0"], ["inter", "K0", "K0", "K4"],
+            ["inter", "K0", "K4", "P"], ["inter", "K4", "K0", "K0"], ["ounion", "K0", "K4"], ["inter", "K0", "K4"]]
     # absorbing combinations: one constructed member covers the other
     for a, b in (("K0", "K1"), ("K1", "K3"), ("O", "K4")):
         for mk in (lambda x: ["type", x], lambda x: ["gen", "list", x], lambda x: ["tuple", x], lambda x: ["dep", x, "qa"]):
